@@ -292,3 +292,5 @@ def run(ctx):
     # R18.9: a FormatChecker object owns its table from construction on, whatever class it is an instance of
     from .c16 import rule_formatchecker_owns
     rule_formatchecker_owns(ctx, "R18.9")
+    from . import scope as _scope18
+    _scope18.rule_no_process_wide_settings(ctx, "R18.10")
